@@ -218,7 +218,8 @@ def unit_registry_to_human_readable(unit_registry):
             dim_list = list(unit_registry[k].dimensionality)
             if len(dim_list) != 1:
                 raise TypeError("Compound units not allowed: {}".format(dim_list))
-            u_symbol = dim_list[0].u_symbol
+            # the plain symbol ('um'), not the unicode one ('µm') which cannot be parsed back
+            u_symbol = dim_list[0].symbol
             new_registry[k] = float(unit_registry[k]), u_symbol
     return new_registry
 
